@@ -172,3 +172,27 @@ def check_mapper_constructors(fx, rep, rule):
             good = v is not None and v[0] == "call" and v[1].endswith("ProguardMapper::new") and "ProguardMapping::new" in repr(v[2][0])
         rep.check(rule, "%s/mapper-constructor/from%s" % (rule, "-tuple" if tuple_variant else "-str"), good, loc=F.short_file(fx.bodies[p]["sp"]), found=txt,
                   expected="delegates to new / new_with_param_mapping with the mapping built from the given text (and the given flag)", nontrivial=False)
+
+
+def check_mapping_wiring(fx, rep, rule):
+    """ProguardMapping::new stores its argument; ProguardMapping::iter iterates exactly the stored bytes (every
+    property that quantifies over 'a mapping file' enters through these two)."""
+    check_constructor(fx, rep, rule, "mapping::ProguardMapping", "new", {"source": ("param", "source")})
+    c = A.method(fx, "mapping::ProguardMapping", "iter")
+    p = A.one(rep, rule, "ProguardMapping::iter", c)
+    if not p:
+        return
+    rep.fn(p)
+    res = _single(fx, p)
+    b = fx.bodies[p]
+    slf = ("in", "self")
+    good = res is not None and len(res) == 1 and not res[0][0].conds and not res[0][0].effects and res[0][1][1][0] == "adt"
+    found = "-"
+    if res is not None and len(res) == 1:
+        v = res[0][1][1]
+        found = S.tstr(v)
+        if good:
+            flds = dict(v[3])
+            good = len(flds) == 1 and list(flds.values())[0] == mk_field(slf, "source") and v[1].endswith("ProguardRecordIter")
+    rep.check(rule, "%s/mapping-iter" % rule, good, loc=F.short_file(b["sp"]), found=found,
+              expected="ProguardRecordIter over exactly self.source (no condition, no effect)")
